@@ -174,7 +174,9 @@ func ComputeRegistryProcessData(spec *common.Spec, flats []common.FlatValidator,
 			continue
 		}
 		if exit > exitQueueEnd {
+			// a later exit epoch starts a new count: only exits in the last epoch of the queue use up its churn
 			exitQueueEnd = exit
+			exitQueueEndChurn = 0
 		}
 		if exit == exitQueueEnd {
 			exitQueueEndChurn++
